@@ -33,11 +33,12 @@ theorem pong_structure_is_sound :
     Facts.C43.pongRegistersFreshChannel = true ∧ Facts.C43.removePongDeletes = true := by decide
 
 /-- The keep-alive loop pings on every tick, lets the ping wait for exactly `pingTimeout`
-(coefficients (0, 1) of (pingInterval, pingTimeout) in `context.WithTimeout`), announces
+(coefficients (0, 1) of (pingInterval, pingTimeout) in `context.WithTimeout`), gives up iff that
+ping returned an error — whatever its cause: deadline, parent context, failed write —, announces
 `pingInterval + pingTimeout` as disconnect delay, and returns the ping's error; `Run` runs it in
 its task group and returns the group's error. -/
 theorem keepalive_is_modelled :
-    Facts.C43.pingLoopPingsOnTick = true ∧
+    Facts.C43.pingLoopPingsOnTick = true ∧ Facts.C43.pingLoopFailsOnPingError = true ∧
     Facts.C43.pingWaitCoeffInterval = 0 ∧ Facts.C43.pingWaitCoeffTimeout = 1 ∧
     Facts.C43.disconnectDelayCoeffInterval = 1 ∧ Facts.C43.disconnectDelayCoeffTimeout = 1 ∧
     Facts.C43.pingLoopReturnsError = true ∧ Facts.C43.runStartsPingLoop = true ∧
@@ -240,6 +241,19 @@ theorem missed_pong_ends_run (tr : List Action) (s : State) (h : run {} tr = som
     simpa using this
   rw [this]
   exact ⟨rfl, rfl⟩
+
+/-- Every way a tick's ping can go unanswered — no pong in time, or the request could not even be
+written — makes `pingLoop` fail at that tick and `Run` end. -/
+theorem every_unanswered_ping_ends_run (os : List TickOutcome) (k : Nat) (o : TickOutcome)
+    (hprev : ∀ j, j < k → os[j]? = some .ok) (hk : os[k]? = some o) (ho : o ≠ .ok) :
+    pingLoop os = .failed k ∧ runEnds (pingLoop os) = true := by
+  have : pingLoop os = .failed k := by
+    unfold pingLoop
+    have := pingLoopFrom_failed os 0 k hprev ⟨o, hk, ho⟩
+    simpa using this
+  rw [this]; exact ⟨rfl, rfl⟩
+
+example : pingLoop [.ok, .writeErr, .ok] = .failed 1 := by decide
 
 /-- While every tick is acknowledged the loop keeps running. -/
 theorem acknowledged_loop_runs (os : List TickOutcome) (h : ∀ o ∈ os, o = .ok) :
